@@ -46,7 +46,7 @@ class FlowFamily:
         out = []
         exp, order = m['expected'], m['order']
         final = h.final_tasks()
-        ade = 'action-during-exec' if h.actions_during_exec() else 'plain'
+        ade = h.race_tag('p1')
         inst = collections.Counter(t['nid'] for t in final.values())
         got = {t['nid']: t['state'] for t in final.values()}
         obs['c04.runs'] += 1
